@@ -506,6 +506,11 @@ pub fn run_ops(w: &mut World, ops: &[Op], start: usize, ctx: &mut Ctx) {
                 w.lib.drop_handle(h);
             }
         }
+        if let Res::Err(k, _) = &got {
+            if k.is_refusal() {
+                ctx.out.refused_ops.push(i);
+            }
+        }
         let ok = !matches!(got, Res::Err(..) | Res::Skipped);
         if ok && op.is_mutator() {
             ctx.out.stats.ok_mutations += 1;
